@@ -13,7 +13,9 @@ Case description (JSON-able):
           "ctrl":  [[number, tick, value], ...]}
   ppq, mpq
   align: [[label, score_id|None, perf_id|None, type|None], ...]
-  opts:  {"unfolded": bool, "api": "part"|"score"|"matchfile"}
+  opts:  {"unfolded": bool, "api": "part"|"score"|"matchfile", "via": "built"|"match"|"midi"}
+  perf may also hold "src": [ppq, mpq, "both"|"on"] (tick fields of the notes, counted in a source clock) and
+  "decl": [ppq, mpq] (clock declared by the PerformedPart object); see build_performed_part
 """
 from fractions import Fraction as F
 
@@ -141,17 +143,40 @@ def tick_candidates(x, ppq, mpq):
     return {lo + (1 if fr > F(1, 2) else 0)}
 
 
-def build_performed_part(case):
+def src_tick(x, ppq_s, mpq_s):
+    """tick count of the exact time x in the source clock (ppq_s, mpq_s); the generator only emits times on that grid"""
+    v = sec_of(x, ppq_s, mpq_s) * 10 ** 6 * ppq_s / mpq_s
+    if v.denominator != 1:
+        raise ValueError("time %r is not on the tick grid of the source clock %r" % (x, (ppq_s, mpq_s)))
+    return int(v)
+
+
+def build_performed_part(case, plain=False):
+    """the performed part of a case.
+
+    perf["src"] = [ppq_s, mpq_s, fields] (optional): the notes also carry their times as tick counts of the source
+    clock (fields "both": note_on_tick and note_off_tick, "on": only note_on_tick), the way parts read from a MIDI or
+    a match file do; the seconds stay the reference.  perf["decl"] = [ppq, mpq] (optional): clock the PerformedPart
+    object declares (default: the requested clock of the case).  plain=True: no tick fields (used for the first leg of
+    a pipeline through a real loader, which then produces them)."""
     from partitura.performance import PerformedPart
 
     ppq, mpq = case["ppq"], case["mpq"]
+    pf = case["perf"]
+    src = None if plain else pf.get("src")
+    dppq, dmpq = pf.get("decl") or [ppq, mpq]
     notes = []
-    for nid, pitch, on, off, vel in case["perf"]["notes"]:
-        notes.append(dict(id=nid, midi_pitch=pitch, note_on=float(sec_of(on, ppq, mpq)),
-                          note_off=float(sec_of(off, ppq, mpq)), velocity=vel, track=0, channel=1))
+    for nid, pitch, on, off, vel in pf["notes"]:
+        d = dict(id=nid, midi_pitch=pitch, note_on=float(sec_of(on, ppq, mpq)),
+                 note_off=float(sec_of(off, ppq, mpq)), velocity=vel, track=0, channel=1)
+        if src:
+            d["note_on_tick"] = src_tick(on, src[0], src[1])
+            if src[2] == "both":
+                d["note_off_tick"] = src_tick(off, src[0], src[1])
+        notes.append(d)
     ctrl = [dict(number=num, time=float(sec_of(t, ppq, mpq)), value=val)
-            for num, t, val in case["perf"].get("ctrl", [])]
-    return PerformedPart(notes, id="PP", part_name="pp", controls=ctrl, ppq=ppq, mpq=mpq)
+            for num, t, val in pf.get("ctrl", [])]
+    return PerformedPart(notes, id="PP", part_name="pp", controls=ctrl, ppq=dppq, mpq=dmpq)
 
 
 def expected_pid(pid):
